@@ -103,6 +103,8 @@ pub struct InstrIter {
     pub data: Vec<u64>,
     pub pos: usize,
     pub exact: bool,
+    /// unbounded source: the data repeats for ever
+    pub endless: bool,
 }
 static INSIDE: AtomicBool = AtomicBool::new(false);
 impl Iterator for InstrIter {
@@ -113,7 +115,7 @@ impl Iterator for InstrIter {
                 r.reentrancy += 1;
             }
         }
-        let out = self.data.get(self.pos).copied();
+        let out = if self.endless && !self.data.is_empty() { Some(self.data[self.pos % self.data.len()]) } else { self.data.get(self.pos).copied() };
         if out.is_some() {
             CONSUMED.fetch_add(1, Ordering::SeqCst);
             let actor = rec::actor_here();
@@ -130,8 +132,10 @@ impl Iterator for InstrIter {
         out
     }
     fn size_hint(&self) -> (usize, Option<usize>) {
-        let rem = self.data.len() - self.pos;
-        if self.exact {
+        let rem = self.data.len().saturating_sub(self.pos);
+        if self.endless {
+            (usize::MAX, None)
+        } else if self.exact {
             (rem, Some(rem))
         } else {
             (0, None)
